@@ -8,7 +8,7 @@ from .core import tlc
 
 def main():
     bad = 0
-    mods = sorted(os.path.basename(p)[:-4] for p in glob.glob(os.path.join(tlc.SPEC, "*.tla")))
+    mods = sorted(os.path.basename(p)[:-4] for p in glob.glob(os.path.join(tlc.SPEC, "*.tla")) if "_TTrace_" not in p)
     import concurrent.futures as cf
     with cf.ThreadPoolExecutor(max_workers=8) as ex:
         for m, (ok, out) in zip(mods, ex.map(tlc.sany, mods)):
